@@ -1,5 +1,7 @@
 #!/bin/bash
 # soak.sh <tier> <seed> : all registered checks, 4 at a time (maintainers' use; not a registered command)
 tier=${1:-thorough}; seed=${2:-11}
-/venv/bin/python harness/setup.py > /dev/null 2>&1
-ls harness/claims/C*.json | sed 's/.*\(C[0-9]*\)\.json/\1/' | xargs -P 4 -I{} bash -c "s=\$(date +%s); VERIF_SEED=$seed /venv/bin/python harness/vcheck.py {} --tier $tier 2>&1 | grep -v KNOWN-FINDING | tail -1 | sed \"s/^/[\$((\$(date +%s)-s))s] /\""
+/venv/bin/python harness/setup.py 2>&1 | tail -2
+one() { s=$(date +%s); VERIF_SEED=$2 /venv/bin/python harness/vcheck.py $1 --tier $3 2>&1 | grep -v KNOWN-FINDING | tail -1 | sed "s/^/[$(( $(date +%s) - s ))s] /"; }
+export -f one
+ls harness/claims/C*.json | sed 's/.*\(C[0-9]*\)\.json/\1/' | xargs -P 4 -I{} bash -c "one {} $seed $tier"
